@@ -3030,9 +3030,22 @@ func (w *Wallet) DumpPrivKeys() ([]string, error) {
 	var privkeys []string
 	err := walletdb.View(w.db, func(tx walletdb.ReadTx) error {
 		addrmgrNs := tx.ReadBucket(waddrmgrNamespaceKey)
-		// Iterate over each active address, appending the private key to
-		// privkeys.
-		return w.Manager.ForEachActiveAddress(addrmgrNs, func(addr btcutil.Address) error {
+		// Collect the active addresses first. The scoped managers hold
+		// their mutex while iterating, so looking an address up from
+		// within the callback would block forever.
+		var addrs []btcutil.Address
+		err := w.Manager.ForEachActiveAddress(
+			addrmgrNs, func(addr btcutil.Address) error {
+				addrs = append(addrs, addr)
+				return nil
+			},
+		)
+		if err != nil {
+			return err
+		}
+
+		// Append the private key of each of them to privkeys.
+		for _, addr := range addrs {
 			ma, err := w.Manager.Address(addrmgrNs, addr)
 			if err != nil {
 				return err
@@ -3041,7 +3054,7 @@ func (w *Wallet) DumpPrivKeys() ([]string, error) {
 			// Only those addresses with keys needed.
 			pka, ok := ma.(waddrmgr.ManagedPubKeyAddress)
 			if !ok {
-				return nil
+				continue
 			}
 
 			wif, err := pka.ExportPrivKey()
@@ -3052,8 +3065,9 @@ func (w *Wallet) DumpPrivKeys() ([]string, error) {
 				return err
 			}
 			privkeys = append(privkeys, wif.String())
-			return nil
-		})
+		}
+
+		return nil
 	})
 	return privkeys, err
 }
